@@ -252,7 +252,7 @@ func Unterminated(yield func(Unterm)) {
 		{"quoted-ident", "dq", `"abc`}, {"quoted-ident", "dq-doubled", `"abc""`}, {"quoted-ident", "dq-only", `"`}, {"quoted-ident", "udq", "“abc"}, {"quoted-ident", "dq-multiline", "\"abc\ndef"},
 		{"backtick", "bt", "`abc"}, {"backtick", "bt-doubled", "`abc``"},
 		{"dollar-quote", "dd", "$$abc"}, {"dollar-quote", "dd-half", "$$abc$"}, {"dollar-quote", "tag", "$t$abc"}, {"dollar-quote", "tag-wrong-close", "$t$abc$$"},
-		{"dollar-quote", "tag-other-close", "$t$abc$u$"}, {"dollar-quote", "dd-multiline", "$$abc\ndef"},
+		{"dollar-quote", "tag-other-close", "$t$abc$u$"}, {"dollar-quote", "tag-other-case-close", "$T$abc$t$"}, {"dollar-quote", "tag-prefix-close", "$ab$abc$a$"}, {"dollar-quote", "dd-multiline", "$$abc\ndef"},
 		{"block-comment", "bc", "/*abc"}, {"block-comment", "bc-star", "/*abc*"}, {"block-comment", "bc-slash", "/*abc/"}, {"block-comment", "bc-only", "/*"},
 		{"block-comment", "bc-multiline", "/*abc\ndef"}, {"block-comment", "bc-star-only", "/**"}, {"block-comment", "bc-slash-only", "/*/"},
 	}
